@@ -124,7 +124,7 @@ func C07(c *run.Check) {
 	// translate(s,f,t)
 	trAlpha := []string{"a", "b", "c", "é"}
 	trS := c07Strings(trAlpha, 2)
-	trFT := c07Strings(trAlpha[:3], 3) // second/third argument: repeats followed by new characters need length 3
+	trFT := c07Strings(trAlpha[:3], 3)                       // second/third argument: repeats followed by new characters need length 3
 	trFT = append(trFT, "é", "éa", "aé", "éé", "abé", "éab") // multi-byte replacement characters shorter than the second argument
 	if !c.Quick() {
 		trS = c07Strings(trAlpha, 3)
